@@ -58,23 +58,26 @@ def run(m, chk):
                 return n.targets[0].id
         return None
     dn = diffname()
+    from .c08 import path_facts
+
+    def signs_at(nid):
+        """the signs the difference can still have at a node, from the tests on every path to it"""
+        poss = {"neg", "zero", "pos"}
+        for txt, pol in path_facts(ctx, nid):
+            t_ = txt.replace(" ", "")
+            table = {f"{dn}>0": {"pos"}, f"0<{dn}": {"pos"}, f"{dn}<0": {"neg"}, f"0>{dn}": {"neg"}, f"{dn}==0": {"zero"}, f"0=={dn}": {"zero"},
+                     f"{dn}>=0": {"pos", "zero"}, f"0<={dn}": {"pos", "zero"}, f"{dn}<=0": {"neg", "zero"}, f"0>={dn}": {"neg", "zero"}, f"{dn}!=0": {"neg", "pos"}, f"0!={dn}": {"neg", "pos"}}
+            if t_ in table:
+                poss &= table[t_] if pol else ({"neg", "zero", "pos"} - table[t_])
+        return poss
+
     for cr, positive in [(c, True) for c in inc] + [(c, False) for c in dec]:
         a = cr.node.args[0] if cr.node.args else None
         arg_ok = a is not None and ((isinstance(a, ast.Name) and a.id == dn) if positive else (isinstance(a, ast.UnaryOp) and isinstance(a.op, ast.USub) and isinstance(a.operand, ast.Name) and a.operand.id == dn))
-        guard_ok = False
-        for t in ctx.cfg.nodes:
-            if t.kind == "test" and isinstance(t.ast, ast.Compare) and len(t.ast.ops) == 1 and dn and dn in seg(t.ast):
-                txt = seg(t.ast).replace(" ", "")
-                pos_t = txt in (f"{dn}>0", f"0<{dn}")
-                neg_t = txt in (f"{dn}<0", f"0>{dn}")
-                if positive and ((pos_t and ctx.cfg.edge_dominates(t.id, "t", cr.cfgnode)) or (neg_t and ctx.cfg.edge_dominates(t.id, "f", cr.cfgnode))):
-                    guard_ok = True
-                if not positive and ((neg_t and ctx.cfg.edge_dominates(t.id, "t", cr.cfgnode)) or (pos_t and ctx.cfg.edge_dominates(t.id, "f", cr.cfgnode))):
-                    guard_ok = True
-        zero = any(t.kind == "test" and dn and seg(t.ast).replace(" ", "") in (f"{dn}==0", f"0=={dn}") and ctx.cfg.edge_dominates(t.id, "f", cr.cfgnode) for t in ctx.cfg.nodes)
-        ok = arg_ok and guard_ok and (zero or positive)
+        poss = signs_at(cr.cfgnode) if dn else set()
+        ok = arg_ok and poss == ({"pos"} if positive else {"neg"})
         chk.ob("DISPATCH", f"{sq}: `{seg(cr.node, 40)}` for {'a higher' if positive else 'a lower'} degree", ok, loc=r.loc(ctx, cr.node),
-               detail="" if ok else f"{sq}: `{seg(cr.node, 50)}` is not reached exactly when the requested degree is {'higher' if positive else 'lower'} with the {'difference' if positive else 'negated difference'} as argument", func=sq, construct="degree dispatch")
+               detail="" if ok else f"{sq}: `{seg(cr.node, 50)}` is not reached exactly when the requested degree is {'higher' if positive else 'lower'} with the {'difference' if positive else 'negated difference'} as argument (signs of the difference possible there: {sorted(poss)})", func=sq, construct="degree dispatch")
     r.commit_last("COMMIT-LAST", C + "degree_increase")
     r.commit_last("COMMIT-LAST", "curves.BaseCurve.apply")
     no_inplace_elem(r, chk, ["curves.BaseCurve.apply"])
